@@ -99,6 +99,7 @@ class C11(PoolScenario):
 
     def clone(self, w, obj, si):
         before = call(observe.observe, obj)
+        methods = (hasattr(obj.fill, "numpy"), hasattr(obj.fill, "sparksql"), hasattr(obj, "plot"))
         o = call(pickle.dumps, obj)
         if not o.ok:
             raise self.violation(exc_site(o.exc)[0], "pickle", "exception:%s" % type(o.exc).__name__, "pickle.dumps raised %s" % o.describe(), si)
@@ -106,6 +107,10 @@ class C11(PoolScenario):
         if before.ok and after.ok and before.value != after.value:
             d = observe.doc_diff(before.value, after.value) or ([], "?", "?")
             raise self.violation(d[1], "pickle", "operand-mutated:%s" % d[2], "pickle.dumps changed the original at %s" % (d[0],), si)
+        if (hasattr(obj.fill, "numpy"), hasattr(obj.fill, "sparksql"), hasattr(obj, "plot")) != methods:
+            raise self.violation(obj.name, "pickle", "operand-mutated:fill-methods",
+                                 "pickle.dumps changed the original: fill.numpy / fill.sparksql / plot available before %s, after %s" % (
+                                     methods, (hasattr(obj.fill, "numpy"), hasattr(obj.fill, "sparksql"), hasattr(obj, "plot"))), si)
         c = call(pickle.loads, o.value)
         if not c.ok:
             raise self.violation(exc_site(c.exc)[0], "pickle", "exception:%s" % type(c.exc).__name__, "pickle.loads raised %s" % c.describe(), si)
